@@ -273,6 +273,7 @@ func (s *server) start() {
 	inst("annotation", "ann", nil)
 	inst("neuronjson", "nj", nil)
 	inst("roi", "roi", nil)
+	inst("uint8blk", "img", map[string]string{"BlockSize": "16,16,16"})
 	three := sampleBlocks()["three"]
 	must := func(st step) {
 		o := s.do(st)
@@ -289,6 +290,8 @@ func (s *server) start() {
 	must(step{"POST", "/lm/mappings", marshalMappings(&proto.MappingOp{Mutid: 1, Mapped: 50, Original: []uint64{51, 52}})})
 	must(step{"POST", "/roi/roi", []byte(`[[1,1,1,3],[1,2,1,3]]`)})
 	must(step{"POST", "/kv/key/a", []byte("hello")})
+	must(step{"POST", "/img/raw/0_1_2/16_16_16/0_0_0", bytes.Repeat([]byte{7}, 16*16*16)})
+	must(step{"POST", "/ann/elements", elemsJSON(el(5, 5, 5, "Note", "seed"))})
 	must(step{"POST", "/nj/key/1000?u=tester", []byte(`{"bodyid":1000,"a":1}`)})
 	s.sentinel = s.readSentinel()
 }
@@ -359,7 +362,11 @@ func (s *server) runScript(pre []step, main step, probe *step) result {
 	if probe != nil {
 		before = digest(s.do(*probe))
 	}
+	t0 := time.Now()
 	o := s.do(main)
+	if d := time.Since(t0); d > time.Second {
+		slowRequests = append(slowRequests, fmt.Sprintf("%s %s: %.1fs", main.Method, main.URL, d.Seconds()))
+	}
 	// a response body containing the recovery message counts as a recovered panic whatever the status
 	if o.Class == "2xx" && bytes.Contains(o.Body, []byte("Panic detected")) {
 		o.Class = "5xx-panic"
@@ -400,6 +407,8 @@ func (s *server) runScript(pre []step, main step, probe *step) result {
 	}
 	return r
 }
+
+var slowRequests []string
 
 var obsNames = []string{"2xx", "4xx", "5xx-panic", "5xx", "dead", "hang", "no-answer-but-alive"}
 
@@ -538,6 +547,7 @@ func main() {
 			srv.c.Quit()
 		}
 		run.Extra["panic_reports_on_child_stderr"] = srv.panics
+		run.Extra["requests_slower_than_1s"] = slowRequests
 		run.Finish("c20case", rule, tail)
 	}
 
@@ -675,6 +685,12 @@ func main() {
 		addBlockReq(run, c)
 	}
 	for _, c := range requestCases(rng, o.Thorough()) {
+		// every death or hang costs a deadline and a restart: once the verdict is beyond doubt
+		// the remaining hostile URLs are skipped so that a broken tree is still reported quickly
+		if c.Fam == 10 && srv.deaths >= 15 {
+			run.Count("skipped:hostile-url-after-15-deaths-or-hangs")
+			continue
+		}
 		addReq(run, c)
 	}
 	for _, c := range elementCases(rng, o.Thorough()) {
